@@ -257,6 +257,13 @@ enum Field {
     Header((HeaderName, HeaderValue)),
 }
 
+/// RFC 9110 `tchar`, uppercase letters excluded (field names are lowercase in HTTP/3)
+fn is_token_char(b: u8) -> bool {
+    matches!(b,
+        b'a'..=b'z' | b'0'..=b'9'
+        | b'!' | b'#' | b'$' | b'%' | b'&' | b'\'' | b'*' | b'+' | b'-' | b'.' | b'^' | b'_' | b'`' | b'|' | b'~')
+}
+
 impl Field {
     fn parse<N, V>(name: N, value: V) -> Result<Self, HeaderError>
     where
@@ -284,6 +291,12 @@ impl Field {
         //# treated as malformed.
 
         if name[0] != b':' {
+            //= https://www.rfc-editor.org/rfc/rfc9110#section-5.1
+            //# field-name     = token
+            // `HeaderName::from_lowercase` also lets '"' through, which is not a token character
+            if !name.iter().all(|b| is_token_char(*b)) {
+                return Err(HeaderError::invalid_name(name));
+            }
             return Ok(Field::Header((
                 HeaderName::from_lowercase(name).map_err(|_| HeaderError::invalid_name(name))?,
                 HeaderValue::from_bytes(value.as_ref())
